@@ -1339,11 +1339,16 @@ func (seq *Sequence) Release() error {
 }
 
 func (seq *Sequence) updateLease() error {
-	return seq.db.Update(func(txn *Txn) error {
+	// The closure may run in a transaction whose commit fails (ErrConflict when another Sequence
+	// object for the same key leases concurrently). It must therefore not touch seq: a lease
+	// that was never persisted must never be handed out. Adopt the new lease only after the
+	// transaction has committed.
+	var next, lease uint64
+	err := seq.db.Update(func(txn *Txn) error {
 		item, err := txn.Get(seq.key)
 		switch {
 		case err == ErrKeyNotFound:
-			seq.next = 0
+			next = 0
 		case err != nil:
 			return err
 		default:
@@ -1354,18 +1359,20 @@ func (seq *Sequence) updateLease() error {
 			}); err != nil {
 				return err
 			}
-			seq.next = num
+			next = num
 		}
 
-		lease := seq.next + seq.bandwidth
+		lease = next + seq.bandwidth
 		var buf [8]byte
 		binary.BigEndian.PutUint64(buf[:], lease)
-		if err = txn.SetEntry(NewEntry(seq.key, buf[:])); err != nil {
-			return err
-		}
-		seq.leased = lease
-		return nil
+		return txn.SetEntry(NewEntry(seq.key, buf[:]))
 	})
+	if err != nil {
+		return err
+	}
+	seq.next = next
+	seq.leased = lease
+	return nil
 }
 
 // GetSequence would initiate a new sequence object, generating it from the stored lease, if
